@@ -238,7 +238,9 @@ def main(tier, seed):
                ("flat-mixed-formats", FLAT, [c("", ["xxh64"], sf=["p/a.txt"]), c("", ["md5"], sf=["p/b.txt"]), c("", ["sha1"], sf=["q/c.txt"])],
                 ["c4"]),
                # an empty file (and a one-byte one) renamed while the rename generation uses another format than the recorded one
-               ("small-files-other-format", {"p": DIR, "q": DIR, "p/empty.lock": b"", "q/one.bin": b"1"}, [c("", ["md5"])], ["xxh64"])]
+               ("small-files-other-format", {"p": DIR, "q": DIR, "p/empty.lock": b"", "q/one.bin": b"1"}, [c("", ["md5"])], ["xxh64"]),
+               # ... and with ONE format throughout (the hash of a 0-byte file equals the content hash of an empty folder in it)
+               ("small-files-same-format", {"p": DIR, "q": DIR, "p/empty.lock": b"", "q/one.bin": b"1"}, [c("", ["xxh64"])], ["xxh64"])]
     # names that end / begin with a blank (a recorded previous path is the name as it was, blanks included)
     layouts.append(("blank-names", {"p": DIR, "q": DIR, "p/a.txt ": b"content of a", "p/ b.txt": b"content of b (distinct)",
                                     "q/c .txt": b"content of c, distinct too"}, [c("", ["xxh64"])], ["xxh64"]))
